@@ -460,14 +460,7 @@ func smallConfig(limit int) m.RoutingTableConfig {
 	}
 }
 
-func parallel(n int, fn func(w int)) {
-	var wg sync.WaitGroup
-	for w := 0; w < n; w++ {
-		wg.Add(1)
-		go func(w int) { defer wg.Done(); fn(w) }(w)
-	}
-	wg.Wait()
-}
+func parallel(n int, fn func(w int)) { core.Parallel(n, fn) }
 
 func exhaustive(res *core.Result, limit, maxLen, shard, shards int) {
 	alpha := smallAlphabet()
